@@ -195,7 +195,7 @@ Definition ex_calls : list ncall :=
    mkCall false true (ex_fields ex_ca [])].
 Example C13_example_trace :
   cache_trace ex_env expr_key_expr expr_typeerror_fallback ex_calls
-  = ([0; 0; 1; 0; 0]%nat,
+  = ([(0, 0); (0, 1); (1, 0); (0, 3); (0, 4)]%nat,
      map (fun c => nc_dkey ex_env expr_key_expr c)
          [mkCall true true (ex_fields ex_ac []); mkCall true true (ex_fields ex_ca []);
           mkCall true true (ex_fields ex_ac [ex_strip])]).
